@@ -8,6 +8,9 @@ registered BEFORE the child can exit - it blocks on a pipe the harness closes la
 has exited and is a zombie, with no loop turn in between - or LATE: after it has exited AND the loop
 has run for a while: SIGCHLDs were handled, other registered children exited and were reported while
 this one was an unregistered zombie) and an API (set_exit_callback, wait_for_exit with raise_error on/off).
+In some batches the application itself waits for one or more REGISTERED children (Popen.wait / Popen.poll /
+os.waitpid) once they are dead, so that tornado's table holds pids the kernel no longer knows; what tornado reports
+for those children is not pinned, but every other child of the batch must still be reported exactly once.
 
 Ground truth for the status is not the plan but the kernel: `waitid(P_PID, pid, WEXITED|WNOWAIT)`
 reports how each child really ended without reaping it (so tornado's own waitpid is not disturbed).
@@ -41,7 +44,8 @@ META = {
     "engine": "monitor",
 }
 RULE = ("cases are batches of children (fate incl. core-dump limit, timing before/after/late relative to exit and to the "
-        "handling of SIGCHLDs, API, handler pre-installed, mid-phase plan); non-trivial if the batch "
+        "handling of SIGCHLDs, API, handler pre-installed, mid-phase plan, optionally registered children reaped by the "
+        "application itself - early or at the barrier - leaving stale pids in the table); non-trivial if the batch "
         "has a child with a non-zero exit status or a signal; distinct by the batch description; children are counted too")
 FLOORS = {"quick": 30, "thorough": 1000}
 ASSUMPTIONS = ["Linux waitid(WNOWAIT) semantics; SIGCHLD queued before the zombie is visible",
@@ -50,7 +54,8 @@ ASSUMPTIONS = ["Linux waitid(WNOWAIT) semantics; SIGCHLD queued before the zombi
 REQUIRED_COUNTERS = ["oracle_evals", "children", "registered_before_exit", "registered_after_exit", "signal_fates",
                      "nonzero_exit_fates", "wait_for_exit_raise_checks", "extra_sigchld_rounds", "concurrent_batches",
                      "registered_late_exit", "late_reg_after_other_exit_reported", "late_reg_while_other_still_registered",
-                     "core_flag_fates"]
+                     "core_flag_fates", "children_reaped_by_application", "stale_pid_left_in_table",
+                     "judged_with_stale_pid_in_table"]
 SHARD_TIMEOUT = {"quick": 300, "thorough": 3600}
 
 SIGNALS = [1, 15, 9, 10, 12, 11, 6, 13, 14, 7, 8]     # HUP TERM KILL USR1 USR2 SEGV ABRT PIPE ALRM BUS FPE
@@ -74,6 +79,7 @@ def shards(tier, seed):
 
 def gen_cases(spec):
     rng = core.rng_for(spec["seed"], PROP, spec["j"])
+    rng2 = core.rng_for(spec["seed"], PROP, f"{spec['j']}/reaped-elsewhere")   # second stream: the batches stay what they were
     for _ in range(spec["batches"]):
         size = rng.choice([1, 1, 2, 3, 4, 6, 8, 16]) if rng.random() < 0.9 else rng.randint(9, 16)
         kids = []
@@ -90,11 +96,20 @@ def gen_cases(spec):
                         else rng.randint(0, 255))
             kids.append((fate, rng.choice(TIMINGS), rng.choice(APIS)))
         nbefore = sum(1 for k in kids if k[1] == "before")
-        yield {"kids": kids, "preinit": rng.random() < 0.5, "interleave": rng.random() < 0.5,
-               "coalesce": size > 1 and rng.random() < 0.5,
-               # what happens between the death of the "late" children and their registration
-               "mid": {"release": rng.choice([0, 0, 1, 1, 2, nbefore]), "extra_sigchld": rng.random() < 0.3,
-                       "turns": rng.choice([0, 1, 3, 10, 30])}}
+        case = {"kids": kids, "preinit": rng.random() < 0.5, "interleave": rng.random() < 0.5,
+                "coalesce": size > 1 and rng.random() < 0.5,
+                # what happens between the death of the "late" children and their registration
+                "mid": {"release": rng.choice([0, 0, 1, 1, 2, nbefore]), "extra_sigchld": rng.random() < 0.3,
+                        "turns": rng.choice([0, 1, 3, 10, 30])}}
+        # some registered children are waited for by the application itself (Popen.wait/poll, os.waitpid) instead of
+        # by tornado: their pid stays in tornado's table although the kernel no longer knows it
+        befores = [i for i, k in enumerate(kids) if k[1] == "before"]
+        if size >= 2 and befores and rng2.random() < 0.4:
+            n = min(len(befores), size - 1, rng2.choice([1, 1, 1, 2, 3]))
+            case["reaped_elsewhere"] = {"idx": sorted(rng2.sample(befores, n)),
+                                        "how": rng2.choice(["proc_wait", "proc_poll", "waitpid"]),
+                                        "when": rng2.choice(["early", "early", "barrier"])}
+        yield case
 
 
 def directed_cases():
@@ -121,6 +136,25 @@ def directed_cases():
                     (("exit", 131), "before", "callback"), (("core", 8, 8), "late", "wait_raise"),
                     (("signal", 3), "before", "callback"), (("core", 7, 1), "after", "callback")],
            "preinit": False, "interleave": True, "mid": {"release": 2, "extra_sigchld": False, "turns": 1}}
+    yield from _directed_reaped_elsewhere()
+
+
+def _directed_reaped_elsewhere():
+    # the first-registered child is waited for by the application (Popen.wait) after it exited: its pid stays in the
+    # table; the other children (registered before and after that) exit later and must still be reported
+    yield {"kids": [(("exit", 5), "before", "callback"), (("exit", 3), "before", "callback"),
+                    (("signal", 15), "before", "wait_noraise"), (("exit", 7), "late", "callback"),
+                    (("exit", 0), "after", "wait_raise")],
+           "preinit": True, "interleave": False, "coalesce": False,
+           "mid": {"release": 1, "extra_sigchld": False, "turns": 3},
+           "reaped_elsewhere": {"idx": [0], "how": "proc_wait", "when": "early"}}
+    yield {"kids": [(("exit", 1), "before", "wait_noraise"), (("signal", 9), "before", "callback"),
+                    (("exit", 0), "before", "callback"), (("exit", 255), "before", "wait_raise")],
+           "preinit": False, "interleave": True, "coalesce": True,
+           "reaped_elsewhere": {"idx": [1, 2], "how": "waitpid", "when": "barrier"}}
+    yield {"kids": [(("exit", 0), "before", "callback"), (("exit", 9), "before", "callback")],
+           "preinit": False, "interleave": False, "coalesce": False,
+           "reaped_elsewhere": {"idx": [0], "how": "proc_poll", "when": "early"}}
 
 
 def script_for(fate, timing):
@@ -185,6 +219,7 @@ class Kid:
         self.calls = []        # values passed to the exit callback
         self.future = None
         self.truth = None
+        self.stolen = False    # reaped by the "application" (the harness) instead of by tornado
 
     def register(self, ctx):
         if self.api == "callback":
@@ -196,6 +231,7 @@ class Kid:
 
     def describe(self):
         return {"child": self.idx, "planned": list(self.fate), "timing": self.timing, "api": self.api,
+                "reaped_by_application": self.stolen,
                 "pid": self.sp.pid if self.sp else None, "kernel_says": self.truth, "callback_values": list(self.calls),
                 "future": None if self.future is None else (
                     "pending" if not self.future.done() else
@@ -217,8 +253,30 @@ async def turns(kids, limit=200):
     return n
 
 
+def reap_elsewhere(k, how, ctx, release=True):
+    """The application waits for a registered child itself.  The child is dead (zombie) before it is reaped and no loop
+    turn happens in here, so tornado cannot have seen it: afterwards its pid is a stale entry in tornado's table."""
+    if release:
+        k.sp.stdin.close()
+    k.truth = kernel_fate(k.sp.pid)
+    if how == "proc_wait":
+        k.sp.proc.wait()
+    elif how == "proc_poll":
+        k.sp.proc.poll()
+    else:
+        os.waitpid(k.sp.pid, 0)
+    if kernel_fate(k.sp.pid, block=False) != "reaped":
+        raise RuntimeError("harness: child is still known to the kernel after the application waited for it")
+    k.stolen = True
+    ctx.count("children_reaped_by_application")
+    if k.sp.pid in Subprocess._waiting:
+        ctx.count("stale_pid_left_in_table")
+
+
 async def run_batch(case, ctx):
     kids = [Kid(i, tuple(f), t, a) for i, (f, t, a) in enumerate(case["kids"])]
+    steal = case.get("reaped_elsewhere") or {"idx": [], "how": None, "when": None}
+    to_steal = [kids[i] for i in steal["idx"]]
     if len(kids) > 1:
         ctx.count("concurrent_batches")
     scratch = None
@@ -250,11 +308,16 @@ async def run_batch(case, ctx):
         # mid phase: the "late" children are unregistered zombies; the loop runs, their SIGCHLD (already queued, see
         # the barrier argument in the module docstring) is handled if a handler is installed, optionally further
         # SIGCHLDs arrive and some registered children exit and are reported; only then are the late ones registered
+        if steal["when"] == "early":
+            for k in to_steal:
+                reap_elsewhere(k, steal["how"], ctx)
+            for _ in range(3):           # their SIGCHLD is handled: a sweep over a table that holds a stale pid
+                await asyncio.sleep(0)
         late = [k for k in kids if k.timing == "late"]
         released = []
         if late:
             mid = case.get("mid") or {"release": 0, "extra_sigchld": False, "turns": 3}
-            befores = [k for k in kids if k.timing == "before"]
+            befores = [k for k in kids if k.timing == "before" and k not in to_steal]
             released = befores[:mid["release"]]
             for k in released:
                 k.sp.stdin.close()
@@ -280,18 +343,21 @@ async def run_batch(case, ctx):
             signal.pthread_sigmask(signal.SIG_BLOCK, {signal.SIGCHLD})
             ctx.count("coalesced_sigchld_batches")
         for k in kids:
-            if k.timing == "before" and k not in released:
+            if k.timing == "before" and k not in released and not k.stolen:
                 k.sp.stdin.close()
         # barrier: every child is dead (zombie or reaped). No await happened since the release, so
         # tornado cannot have reaped a "before" child yet and the kernel still tells us its fate.
         try:
             for k in kids:
-                if k.timing == "before" and k not in released:
+                if k.timing == "before" and k not in released and not k.stolen:
                     k.truth = kernel_fate(k.sp.pid)
+            if steal["when"] == "barrier":
+                for k in to_steal:
+                    reap_elsewhere(k, steal["how"], ctx, release=False)
         finally:
             if coalesce:
                 signal.pthread_sigmask(signal.SIG_UNBLOCK, {signal.SIGCHLD})
-        used = await turns(kids)
+        used = await turns([k for k in kids if not k.stolen])
         ctx.count("loop_turns_used", used)
         judge(kids, case, ctx)
         # repeated SIGCHLD must not re-run anything (judged separately: a later SIGCHLD must not be
@@ -338,7 +404,16 @@ async def run_batch(case, ctx):
 
 
 def judge(kids, case, ctx):
+    stale = any(k.stolen for k in kids)
     for k in kids:
+        if k.stolen:
+            # tornado can no longer learn this child's status: whether and how it is reported is not pinned
+            ctx.count("unspecified_report_for_child_reaped_by_application")
+            if done(k):
+                ctx.count("child_reaped_by_application_was_reported")
+            continue
+        if stale:
+            ctx.count("judged_with_stale_pid_in_table")
         ctx.count("oracle_evals")
         want = k.truth
         planned = k.fate[1] if k.fate[0] == "exit" else -k.fate[1]
